@@ -159,6 +159,19 @@ def run(ctx):
                         ctx.fail('Circuit.backward', 'backward with the own record is not the adjoint of the recorded trajectory', rep)
                 except ValueError as e:
                     ctx.fail('Circuit.backward', 'own record rejected: %r' % e, rep)
+                # the same record supplied explicitly, in every container the API may meet (list, tuple, numpy arrays): same state
+                for form, rec_ in (('list', list(results)), ('tuple', tuple(results)), ('numpy int64 array', np.array(results, dtype=np.int64)),
+                                   ('numpy int8 array', np.array(results, dtype=np.int8))):
+                    st3 = impl.state(post, 0)
+                    try:
+                        circ.backward(st3, measure_result=rec_)
+                        got3 = (int(st3.r), O.canon_group(impl.ops_of(st3)[int(st3.r):N])[0])
+                    except Exception as e:
+                        got3 = impl.errname(e) + ': ' + str(e)[:80]
+                    ctx.count('record-form:' + form)
+                    if got3 != iv2:
+                        ctx.fail('Circuit.backward', 'the circuit\'s own record supplied as a %s gives %s instead of the state reached with the stored record' % (form, str(got3)[:160]),
+                                 dict(rep, record=[int(v) for v in results], form=form)); break
                 # wrong-length record
                 try:
                     circ.backward(impl.state(post, 0), measure_result=results + [1]); gotw = 'no error'
